@@ -47,4 +47,8 @@ resolves -/
 def AllowOK (base : Url) (allow : List Str) : Prop :=
   ∀ o ∈ allow, '%' ∉ o ∧ ∃ uo, parse base o = .ok uo
 
+/-- "allowlisted" refers to the allow-list the operator configured: an explicit list — the empty one included, which
+leaves only loopback — is the list in force; only an absent configuration means the built-in default -/
+def AllowInForce (dflt : List Str) (configured : Option (List Str)) : List Str := configured.getD dflt
+
 end VgiVerif.C37.Spec
